@@ -321,3 +321,38 @@ Proof.
   - apply cveq_veq, dt_pre_cveq.
   - unfold tcp_set_state. sproj. split; reflexivity.
 Qed.
+
+(* ---------------------------------------------------------------------------------------- *)
+(* summaries                                                                                 *)
+(* ---------------------------------------------------------------------------------------- *)
+Lemma app_veq cx s t stt una nxt ws tm la M ev0 s' out tags :
+  gview cx s t stt una nxt ws tm la M ->
+  match ev0 with
+  | EvRecv n => 0 <= n
+  | EvSend _ => tcp_may_send s = false
+  | EvClose => tcp_close s = s
+  | _ => False
+  end ->
+  tcp_step cx s ev0 = Ok (s', out, tags) -> wire_out out = None /\ veq s' s.
+Proof.
+  intros (C & _) Hev H. destruct C as [K C1 C2 C3 C4 C5 C6 C7].
+  destruct ev0; try contradiction.
+  - destruct (step_close_noop _ _ _ _ _ Hev H) as (A & ->). split; [exact A | apply veq_refl].
+  - destruct (step_send_refused _ _ _ _ _ _ Hev H) as (A & ->). split; [exact A | apply veq_refl].
+  - exact (step_recv _ _ _ _ _ _ Hev (k_rxwf _ _ _ K) C6 H).
+Qed.
+
+Lemma quiet_poll_veq cx s t stt una nxt ws tm M ok s' out tags :
+  gview cx s t stt una nxt ws tm ws M -> st_sync stt -> (nxt = una \/ nxt = seq_add una 1) ->
+  want_fin stt && (nxt =? una) = false ->
+  (tm = TIdle None \/ (exists e, tm = TRetransmit e /\ cx_now cx < e) \/ exists e, tm = TClose e /\ cx_now cx < e) ->
+  tcp_step cx s (EvDispatch ok) = Ok (s', out, tags) -> wire_out out = None /\ veq s' s.
+Proof.
+  intros G Hsync Hnx Hnf Htm H.
+  destruct (step_disp_quiet cx s t stt una nxt ws tm M ok s' out tags G Hsync Hnx Hnf) as (A & [(_ & B) | (B & _)]);
+    try exact H.
+  - destruct Htm as [X | [(e & X & Y) | (e & X & Y)]]; [left; exact X | right; left; eauto | right; right; eauto].
+  - split; assumption.
+  - exfalso. destruct Htm as [-> | [(e & -> & Y) | (e & -> & Y)]]; cbn [timer_should_close] in B; try discriminate.
+    destruct (Z.geb_spec (cx_now cx) e); [lia | discriminate].
+Qed.
